@@ -20,7 +20,7 @@ TreeFails(c, tr) ==
       tsites == SitesIn(T, d.left, d.right)
   IN {cl \in {"interval", "parent", "edge", "ns", "nt", "num_edges", "roots", "linked", "sites", "muts", "samples",
               "mrca", "depth", "bl", "tbl", "isdesc", "nlin", "pre", "post", "in", "level", "tasc", "tdesc", "minlex",
-              "leaves", "subpre", "subpost", "numroots", "mut_edges"} :
+              "leaves", "subpre", "subpost", "numroots", "mut_edges", "sackin", "colless", "b1", "path_length", "num_children"} :
      ~ CASE cl = "interval" -> tr.left = d.left /\ tr.right = d.right /\ tr.index \in 0..(NumTrees(T) - 1)
          [] cl = "parent" -> Len(tr.parent) = n + 1 /\ tr.parent[n + 1] = NULL /\ \A u \in NodesOf(T) : tr.parent[u + 1] = par[u]
          [] cl = "edge" -> Len(tr.edge) = n + 1 /\ tr.edge[n + 1] = NULL /\ \A u \in NodesOf(T) : tr.edge[u + 1] = d.edge[u]
@@ -29,6 +29,14 @@ TreeFails(c, tr) ==
          [] cl = "num_edges" -> tr.num_edges = d.numEdges
          [] cl = "roots" -> ToSet(tr.roots) = d.roots /\ Len(tr.roots) = Cardinality(d.roots) /\ tr.roots = rootsq
          [] cl = "numroots" -> tr.num_roots = Cardinality(d.roots)
+         [] cl = "sackin" -> tr.sackin = Sackin(par, d.roots)
+         \* -1 encodes the documented refusal (several roots, or a node with a number of children other than 0 or 2)
+         [] cl = "colless" -> IF CollessDefined(par, d.roots) THEN tr.colless = Colless(par, d.roots) ELSE tr.colless = -1
+         [] cl = "b1" -> B1OK(par, d.roots, tr.b1)
+         \* [u, v, edges on the path] for node pairs with a common ancestor; -1 when they have none
+         [] cl = "path_length" -> \A i \in 1..Len(tr.pathlen) : LET r == tr.pathlen[i] IN
+                                    r[3] = (IF MRCAIn(par, r[1], r[2]) = NULL THEN -1 ELSE PathLen(par, r[1], r[2]))
+         [] cl = "num_children" -> \A u \in NodesOf(T) : tr.nchild[u + 1] = Cardinality(ChildrenIn(par, u))
          [] cl = "linked" -> LinkedOK(tr, par, d.roots, n) /\ SibNullOK(tr, par, d.roots, n)
          [] cl = "sites" -> ToSet(tr.sites) = {i - 1 : i \in tsites} /\ IsStrictlySorted(tr.sites)
          [] cl = "muts" -> ToSet(tr.muts) = {m - 1 : m \in MutsAtSites(T, tsites)} /\ IsStrictlySorted(tr.muts)
